@@ -31,7 +31,7 @@ func build(sc *engine.Scenario, res *engine.Result) *machine.Machine {
 		res.Harness = "cart build: " + err.Error()
 		return nil
 	}
-	m, pi := machine.New(img, sc.Cart.Missing, machine.Options{Audio: sc.Audio, Video: sc.Video, Serial: sc.Serial, ChanCap: sc.ChanCap})
+	m, pi := machine.New(img, sc.Cart.Missing, machine.Options{Audio: sc.Audio, Video: sc.Video, Serial: sc.Serial, ChanCap: sc.ChanCap, DebugLCD: sc.P("env.debuglcd", 0) != 0})
 	if pi != nil {
 		res.Harness = fmt.Sprintf("construction panicked for a well-formed cartridge: %s (%s)", pi.Value, pi.Site)
 		return nil
@@ -63,3 +63,39 @@ func applyBus(m *machine.Machine, ev *engine.Event) bool {
 func cartBuild(spec engine.CartSpec) ([]byte, error) { return cart.Build(spec) }
 
 func controllerButton(i int) controller.Button { return controller.Button(i & 7) }
+
+// ---- environment dimensions ---------------------------------------------------------------------
+// The properties about one unit hold whatever state the units they do not mention are in. chooseEnv
+// picks, per scenario, the state the CPU is parked in while a scripted bus master works (looping,
+// halted, stopped) and the configuration flag DebugLCD; park applies the former.
+
+func chooseEnv(r *engine.Rand, sc *engine.Scenario) {
+	if r.Chance(1, 2) {
+		sc.SetP("env.park", int64(r.Range(1, 2)))
+	}
+	if r.Chance(1, 4) {
+		sc.SetP("env.debuglcd", 1)
+	}
+}
+
+// chooseEnvConfig picks the configuration flags only (checks whose histories own all of high RAM).
+func chooseEnvConfig(r *engine.Rand, sc *engine.Scenario) {
+	if r.Chance(1, 4) {
+		sc.SetP("env.debuglcd", 1)
+	}
+}
+
+// park parks the CPU as the scenario's environment says.
+func park(sc *engine.Scenario, m *machine.Machine, res *engine.Result) {
+	mode := int(sc.P("env.park", 0))
+	m.ParkAs(mode)
+	switch mode {
+	case 1:
+		res.Probe("env_cpu_halted")
+	case 2:
+		res.Probe("env_cpu_stopped")
+	}
+	if sc.P("env.debuglcd", 0) != 0 {
+		res.Probe("env_debug_lcd")
+	}
+}
